@@ -154,21 +154,22 @@ Theorem depths_after_error : forall body c c',
   = (length (dstk c), length (sstk c), length (astk c), ldepth c).
 Proof. exact depths_after_error_proof. Qed.
 
-(* local contract of the restoring re-entries (EvalCallExpression / Apply / Force, CallUserFunction) *)
+(* local contract of EVERY re-entry point (EvalCallExpression / Apply / Force, CallUserFunction,
+   EvalFunction): on error the code that made the re-entry gets back exactly the control state it
+   had, so host code may handle the error and go on.  (Until /repo commit 4b37dbf EvalFunction had
+   no capture/restore and this statement was refuted for it - finding evalfunction-no-restore,
+   found by the harness kind catch-eval-runtime; the harness keeps that kind as a regression test.) *)
 Theorem reentry_restores : forall k body base c c',
-  k <> KEvalFn -> exec base (AReenter k false body) c = Err c' -> same_ctrl c c'.
+  exec base (AReenter k false body) c = Err c' -> same_ctrl c c'.
 Proof. exact reentry_restores_proof. Qed.
 Print Assumptions reentry_restores.
 
-(* REFUTED for EvalFunction (finding evalfunction-no-restore, replayed on the real code by the
-   harness kind catch-eval-runtime): the full statement
-     forall k body base c c', exec base (AReenter k false body) c = Err c' -> same_ctrl c c'
-   is false: *)
-Theorem reentry_restores_refuted :
-  exists c', exec (capture c_rest) (AReenter KEvalFn false [AFail]) c_rest = Err c'
-             /\ length (astk c') = S (length (astk c_rest)) /\ cur c' <> cur c_rest.
-Proof. exact evalfn_leaves_address_proof. Qed.
-Print Assumptions reentry_restores_refuted.
+Theorem caught_reentry_invisible : forall k body base c c',
+  exec base (AReenter k true body) c = OK c' ->
+  (exec base (AReenter k false body) c = Err c' /\ same_ctrl c c')
+  \/ exec base (AReenter k false body) c = OK c'.
+Proof. exact caught_reentry_invisible_proof. Qed.
+Print Assumptions caught_reentry_invisible.
 
 (* (5) (T) the census of VM re-entry points generated from the Go source *)
 Theorem reentry_census_ok : forallb reentry_ok generated_reentries = true.
@@ -189,6 +190,8 @@ Example ex_fails : fst (run_session 50 1 [TForms ex_forms; TForms [EVar 100]; TF
 Proof. vm_compute. reflexivity. Qed.
 Example ex_clean : fst (run_session 50 0 [TForms ex_forms; TForms [EVar 101]]) = [Done (SvInt 2); Done (SvInt 2)].
 Proof. vm_compute. reflexivity. Qed.
+Example ex_evalfn_restores : exec (capture c_rest) (AReenter KEvalFn false [AFail]) c_rest = Err c_rest.
+Proof. exact evalfn_restores_witness. Qed.
 (* the machine: an error three re-entries deep, with a caught error on the way *)
 Example ex_nested :
   run_top [APush SData 1; AReenter KUser false [AReenter KCaptured true [APush SScope 2; AFail];
